@@ -75,6 +75,20 @@ func overlayFor(repo, verif string, dirs []string, genDir string) (map[string]st
 		}
 		ov[filepath.Join(pdir, "zz_verif_api.go")] = gen
 	}
+	// observation point for timer arming: internal/event_timer.go of the CURRENT tree with one call inserted
+	// into Reset (never committed; used identically by the symbolic run and by native replay)
+	if src, err := os.ReadFile(filepath.Join(repo, "internal", "event_timer.go")); err == nil {
+		const anchor = "\tt.timer.Reset(timeout)"
+		if strings.Count(string(src), anchor) == 1 {
+			patched := strings.Replace(string(src), anchor, "\tif VerifTimerHook != nil {\n\t\tVerifTimerHook(t, timeout)\n\t\treturn\n\t}\n"+anchor, 1)
+			patched += "\n// VerifTimerHook observes Reset (inserted by the verification overlay).\nvar VerifTimerHook func(*EventTimer, time.Duration)\n"
+			os.MkdirAll(filepath.Join(genDir, "internal_hook"), 0o755)
+			gen := filepath.Join(genDir, "internal_hook", "event_timer.go")
+			if err := os.WriteFile(gen, []byte(patched), 0o644); err == nil {
+				ov[filepath.Join(repo, "internal", "event_timer.go")] = gen
+			}
+		}
+	}
 	return ov, nil
 }
 
